@@ -88,7 +88,7 @@ theorem getD_set_ne {α : Type} (l : List α) (i j : Nat) (a d : α) (h : i ≠ 
 theorem create_wf {t t' : T} {p : Deme} {seed : Option Ind} {env : NewEnv} (hw : WF t) (hp : p ∈ t.demes)
     (h : createDeme t (some p) seed env = .ok t') : WF t' := by
   have ce := createDeme_effect h
-  obtain ⟨old, d, hd, hf, _, _, hlev, hid, _, _, hst, _, hpar, ⟨lc, hlc⟩, _⟩ := ce.demes
+  obtain ⟨old, d, hd, hf, _, _, _, hlev, hid, _, _, hst, _, hpar, ⟨lc, hlc⟩, _⟩ := ce.demes
   simp only at hlev hid hpar
   have hlevels := ce.levels
   simp only at hlevels
@@ -248,7 +248,7 @@ theorem step_wf {t t' : T} {ev : Ev} (hw : WF t) (h : step t ev = .ok t') : WF t
 theorem init_wf {cfg : Cfg} {stks : List (List Problem.Wrapper)} {rootEnv : NewEnv} {t0 : T}
     (hi : init cfg stks rootEnv = .ok t0) : WF t0 := by
   have ce := createDeme_effect hi
-  obtain ⟨old, d, hd, hf, _, _, hlev, hid, _, _, hst, _, hpar, ⟨lc, hlc⟩, _⟩ := ce.demes
+  obtain ⟨old, d, hd, hf, _, _, _, hlev, hid, _, _, hst, _, hpar, ⟨lc, hlc⟩, _⟩ := ce.demes
   simp only at hlev hid hpar
   have hold : old = [] := by cases hf; rfl
   have hlevels := ce.levels
